@@ -70,27 +70,11 @@ def modelRect : RectForm → Option (Outcome Buf.Rect)
     | _, _ => none
 
 /-- Panic sites of the model -> the class names the harness derives from the Rust messages. -/
-def modelClass (m : String) : String :=
-  if m.startsWith "width > stride" then "width-gt-stride"
-  else if m.startsWith "stride > data length" then "stride-gt-len"
-  else if m.startsWith "height > data length" then "height-gt-len"
-  else if m.startsWith "required size" then "size-gt-len"
-  else if m.startsWith "range left" then "rect-left-gt-right"
-  else if m.startsWith "range top" then "rect-top-gt-bottom"
-  else if m.startsWith "range right" then "rect-right-gt-width"
-  else if m.startsWith "range bottom" then "rect-bottom-gt-height"
-  else if m.startsWith "position out of bounds" then "position-oob"
-  else if m.startsWith "range end index" then "slice-end"
-  else if m.startsWith "range start index" then "slice-start"
-  else if m.startsWith "slice index starts at" then "slice-order"
-  else if m.startsWith "index out of bounds" then "index-oob"
-  else if m.startsWith "attempt to multiply" then "mul-overflow"
-  else if m.startsWith "attempt to add" then "add-overflow"
-  else if m.startsWith "attempt to subtract" then "sub-overflow"
-  else if m.startsWith "dimension mismatch" then "dims-mismatch"
-  else if m.startsWith "insufficient items" then "insufficient-items"
-  else if m.startsWith "w * h cannot exceed" then "isize-overflow"
-  else "model:" ++ m
+def modelClass (_m : String) : String :=
+  -- Only WHETHER an operation panics is compared with the implementation, never the wording or the site of
+  -- the panic: a reworded assertion message (or an explicit assert in front of an index panic) is not a
+  -- change of behaviour the property speaks about. The harness maps every panic message to `any` as well.
+  "any"
 
 structure MSt where
   root : List Nat
